@@ -17,6 +17,17 @@ def _hdr_compat(tag, rops: List[str], wops: List[str]) -> Tuple[str, str]:
         return R.UNDEC, "unmodelled reader transform " + ",".join(rops)
     rc = [o for o in rops if o != "strip"]
     wc = list(wops)
+    if wc == ["<unmodelled>"]:
+        return R.UNDEC, "the writer passes the field through an expression that is not modelled"
+    rnd = [o for o in wc if o.startswith("round:")]
+    if rnd:
+        d = rnd[0].split(":")[1]
+        unit = "s" if any(o == "call:RAConst.msec_to_sec" for o in wc) else ""
+        if d.isdigit() and int(d) >= 6:
+            return R.UNDEC, f"written rounded to {d} decimals: whether that is below the resolution of the value is a numeric question"
+        return R.VIOL, (f"written through round(.., {d}): only {d} decimals{' of a second' if unit else ''} survive, so a value that is not a multiple of "
+                        f"{'1 ms' if unit and d == '3' else '10^-' + d + (' s' if unit else '')} is read back changed (after a rate change, or "
+                        f"a first tempo point at 12.5 ms) and every time derived from it moves with it")
     if rc == [] and wc == []:
         return R.OK, "str <-> str (strip is an idempotent normalisation)"
     r_conv = [o for o in rc if o.startswith("call:RAConst.")]
